@@ -74,6 +74,15 @@ func (c *Ctx) escapeDecoding(fn *ssa.Function, L byte) (string, int, string) {
 					if o := calleeObj(vc); o != nil && o.Name() == "readHex" {
 						return "hexbyte", 0, ""
 					}
+					// a pure helper of the package applied to the escape letter (the table moved into a function): executed
+					if h := vc.Common().StaticCallee(); h != nil && h.Pkg == fn.Pkg && len(h.Params) == 1 && len(vc.Common().Args) == 1 && vc.Common().Args[0] == ssa.Value(esc) {
+						if val, ok := c.ssaEval(h, []int64{int64(L)}, 0); ok {
+							if val == int64(L) {
+								return "identity", 0, ""
+							}
+							return "byte", int(val), ""
+						}
+					}
 				}
 				return "other", 0, "unrecognised value written: " + v.String()
 			case "WriteRune":
